@@ -1,4 +1,4 @@
-(* C05 driver: runs the Coq checker on complexes dumped by the harness. *)
+(* C05 driver: runs the Coq checker on complexes dumped by the harness, and the cobordism evaluation model. *)
 (*INCLUDE kh_common.ml*)
 let split_on (sep : string) (s : string) : string list =
   (* split on a multi-character separator *)
@@ -31,6 +31,56 @@ let parse_level (m : z) (s : string) : level =
 let parse_complex (m : z) (s : string) : complex =
   Stdlib.List.map (parse_level m) (split_on "#" s)
 
+(* ---------- cobordism evaluation (Model/CobEval.v) ---------- *)
+let string_of_poly (p : poly) : string =
+  if p = [] then "0" else
+  String.concat "+" (Stdlib.List.map (fun ((eh, et), c) ->
+    Printf.sprintf "%s*%s*%s" (string_of_z c) (string_of_nat eh) (string_of_nat et)) p)
+
+let string_of_zopt = function Some v -> string_of_z v | None -> "MODEL-FUEL"
+let string_of_lc3 ((a, b), c) = Printf.sprintf "%s,%s,%s" (string_of_z a) (string_of_z b) (string_of_z c)
+
+let parse_comps (body : string) : ccomp list =
+  Stdlib.List.filter_map (fun part ->
+    match split_ws part with
+    | [] -> None
+    | [g; x; y] -> Some { cc_g = nat_of_string g; cc_x = nat_of_string x; cc_y = nat_of_string y }
+    | _ -> failwith ("component " ^ part)) (String.split_on_char ',' body)
+
+(* v comes from the literal transcription of the Rust match (on fuel), pe / lev from the structural recursion *)
+let handle_ce ring g x y h t : string =
+  let gi = int_of_string g and xi = int_of_string x and yi = int_of_string y in
+  let g = nat_of_int gi and x = nat_of_int xi and y = nat_of_int yi in
+  let c = { cc_g = g; cc_x = x; cc_y = y } in
+  let tail = Printf.sprintf "deg=%s chi=%s z=%s u=%s s=%s" (string_of_z (deg c)) (string_of_z (euler_num c))
+      (string_of_bool01 (is_zero_cob c)) (string_of_bool01 (is_unit_cob c)) (string_of_bool01 (should_part_eval c)) in
+  if ring = "p" then
+    let v = string_of_poly (eval_closed_poly g x y) in
+    Printf.sprintf "v=%s pe=%s cpe=- cev=- lev=%s %s" v v v tail
+  else
+    let h = z_of_string h and t = z_of_string t in
+    let fuel = nat_of_int (2 * gi + xi + yi + 1) in
+    let v = string_of_z (eval_closed g x y h t) in
+    Printf.sprintf "v=%s pe=%s cpe=%s cev=%s lev=%s %s" (string_of_zopt (eval_closed_fuel fuel g x y h t)) v
+      (string_of_z (cob_part_eval h t [c])) (string_of_z (cob_eval h t [c])) v tail
+
+let handle_co g x y h t : string =
+  let gi = int_of_string g and xi = int_of_string x and yi = int_of_string y in
+  let g = nat_of_int gi and x = nat_of_int xi and y = nat_of_int yi in
+  let h = z_of_string h and t = z_of_string t in
+  let fuel = nat_of_int (2 * gi + xi + yi + 1) in
+  let pe = match part_eval_open_fuel fuel g x y h t with Some u -> string_of_lc3 u | None -> "MODEL-FUEL" in
+  Printf.sprintf "pe=%s cpe=%s s=%s" pe (string_of_lc3 (part_eval_open g x y h t))
+    (string_of_bool01 (should_part_eval_gen false false g x y))
+
+let handle_cp ring h t body : string =
+  let cs = parse_comps body in
+  let tail = Printf.sprintf "deg=%s n=%d" (string_of_z (cob_deg cs)) (Stdlib.List.length cs) in
+  if ring = "p" then Printf.sprintf "e=%s pe=- %s" (string_of_poly (cob_eval_poly cs)) tail
+  else
+    let h = z_of_string h and t = z_of_string t in
+    Printf.sprintf "e=%s pe=%s %s" (string_of_z (cob_eval h t cs)) (string_of_z (cob_part_eval h t cs)) tail
+
 let handle (line : string) : string =
   match String.index_opt line ';' with
   | None -> failwith "bad case"
@@ -52,6 +102,9 @@ let handle (line : string) : string =
             let gs' = Stdlib.List.mapi (fun k g -> (nat_of_int k, g)) gs in
             table_of gs' (int_of_string i0) "Z")
      | "rc" :: _ -> "OK"
+     | ["ce"; ring; g; x; y; h; t] -> handle_ce ring g x y h t
+     | ["co"; _; _; g; x; y; h; t] -> handle_co g x y h t
+     | ["cp"; ring; h; t] -> handle_cp ring h t body
      | _ -> failwith "bad case head")
 
 let () = run_lines handle
